@@ -99,6 +99,7 @@ func runC18(c *Ctx) {
 	c.NotDec = []string{"absence of every implicit run-time panic (index, nil, conversion) and of hangs in general", "allocation bounds inside generated protobuf unmarshalling (bounded by the packet/message caps)", "round-trip of well-formed messages beyond codec field coverage (C13/C15)"}
 	c.Floors["G"] = 45
 	c.Floors["L1"] = 60
+	c18Round3(c)
 
 	frameLengthRule(c)
 	// sanity panics behind a precondition: the caller establishes the precondition (a peer's catch-up vote may have
